@@ -252,7 +252,81 @@ pub fn enc_unknown<S: Src, const L: usize, const B: usize>(s: &mut S) {
     vcover!(c.padding > 0, "padded reference unknown accepted");
 }
 
+/// Clause (b) at sizes the reference-encoder instances do not reach: every string framed as
+/// the RFC demands (version 2, the type, length field = len/4 - 1, padding bit with a final
+/// count that is a non-zero multiple of 4 and leaves the fixed part and what the count field
+/// announces intact, zero padding octets) is accepted, and the payload-like accessor spans what is left.  All other
+/// bytes are arbitrary, so this is a superset of what an RFC encoder produces.
+/// `KIND`: 0 APP, 1 RTPFB, 2 PSFB, 3 RR, 4 SR, 5 unknown type 199.
+pub fn framed_accept<S: Src, const N: usize, const KIND: u8>(s: &mut S) {
+    let mut data: [u8; N] = s.bytes();
+    let (pt, min, per_count) = match KIND {
+        0 => (PT_APP, 12, 0),
+        1 => (PT_RTPFB, 12, 0),
+        2 => (PT_PSFB, 12, 0),
+        3 => (PT_RR, 8, 24),
+        4 => (PT_SR, 28, 24),
+        _ => (199, 4, 0),
+    };
+    let words = s.range(min / 4, N / 4);
+    let len = 4 * words;
+    let pad = s.u8() as usize;
+    let count = (data[0] & 0x1f) as usize;
+    s.assume(pad % 4 == 0 && min + per_count * count + pad <= len);
+    data[0] = 0x80 | if pad > 0 { 0x20 } else { 0 } | (data[0] & 0x1f);
+    data[1] = pt;
+    data[2] = ((words - 1) >> 8) as u8;
+    data[3] = (words - 1) as u8;
+    if pad > 0 {
+        data[len - 1] = pad as u8;
+        // padding octets are zeros (RFC 3550 leaves their value open; an encoder writes zeros)
+        let mut q = 2;
+        while q <= 255 {
+            if q <= pad {
+                data[len - q] = 0;
+            }
+            q += 1;
+        }
+    }
+    let d = &data[..len];
+    let want_pad = if pad > 0 { Some(pad as u8) } else { None };
+    match KIND {
+        0 => {
+            let p = App::parse(d).expect("well-framed APP rejected");
+            assert!(p.padding() == want_pad && p.data().len() == len - 12 - pad);
+        }
+        1 => {
+            let p = TransportFeedback::parse(d).expect("well-framed RTPFB rejected");
+            assert!(p.padding() == want_pad && p.length() == len);
+        }
+        2 => {
+            let p = PayloadFeedback::parse(d).expect("well-framed PSFB rejected");
+            assert!(p.padding() == want_pad && p.length() == len);
+        }
+        3 => {
+            let p = ReceiverReport::parse(d).expect("well-framed RR rejected");
+            assert!(p.padding() == want_pad && p.n_reports() as usize == count);
+        }
+        4 => {
+            let p = SenderReport::parse(d).expect("well-framed SR rejected");
+            assert!(p.padding() == want_pad && p.n_reports() as usize == count);
+        }
+        _ => {
+            let p = Unknown::parse(d).expect("well-framed unknown packet rejected");
+            assert!(p.length() == len);
+        }
+    }
+    vcover!(pad > 0 && len - min >= 256, "padded packet more than 256 bytes beyond its minimum");
+    vcover!(pad == 0 && len == min, "smallest packet");
+}
+
 common::register! {
+    q_framed_app = framed_accept::<_, 320, 0> => 2,
+    q_framed_tfb = framed_accept::<_, 320, 1> => 2,
+    q_framed_pfb = framed_accept::<_, 320, 2> => 2,
+    q_framed_rr = framed_accept::<_, 1040, 3> => 2,
+    q_framed_sr = framed_accept::<_, 1060, 4> => 2,
+    q_framed_unknown = framed_accept::<_, 320, 5> => 2,
     q_sr = sr::<_, 80> => 5,
     q_rr = rr::<_, 64> => 5,
     q_report_block = report_block => 2,
